@@ -299,7 +299,7 @@ def worker(task: Tuple) -> Dict[str, Any]:
 
 
 def tasks_for(tier: str) -> List[Tuple]:
-    kind_sets = [("float", "float"), ("int", "float"), ("dec", "dec")]
+    kind_sets = [("float", "float"), ("int", "float"), ("int", "int"), ("dec", "dec")]
     if tier == "thorough":
         kind_sets = [("float", "float"), ("int", "float"), ("int", "int"), ("dec", "dec"),
                      ("dec", "int"), ("float", "int")]
